@@ -1540,6 +1540,7 @@ def search(ctx):
     boost = 2 if ctx.extra.get("search_boost") else 1
 
     def run(sc, stream):
+        ctx.current_input = {"scene": sc, "stream": stream}     # reported by the phase watchdog if a call never returns
         fails, (lo, up, L) = judge(sc)
         ctx.count("search:" + stream, key=(str(sc["a"]), str(sc["b"])),
                   nontrivial=True, sample={"pair": [sc["a"]["type"], sc["b"]["type"]],
